@@ -1,4 +1,5 @@
 import Pike.Model.Proxy
+import Pike.Model.Query
 import Pike.Lemmas.Header
 import Pike.Lemmas.Rewrite
 import Pike.Spec.Skeleton
@@ -17,6 +18,14 @@ theorem skeleton_transcribed :
     Facts.skel_Location_mergeHeader = Spec.Skeleton.Location_mergeHeader
     ∧ Facts.skel_Location_AddQuery = Spec.Skeleton.Location_AddQuery := by
   refine ⟨?_, ?_⟩ <;> rfl
+
+/-- Obligation on the regenerated statement skeleton of `server.Start`: the middleware chain a listening server
+runs every request through — error handler, the default `fresh` middleware (it is what turns a full answer into the
+client's 304, for `If-None-Match` and for `If-Modified-Since` alike), responder, cache, proxy — is, item for item and in
+this order, the chain the harness pipelines are built from.  The suites that do not start a real listener observe
+pike through that replica; this obligation is what makes the replica a faithful one.  (Suite `fault` goes through
+`server.Start` itself.) -/
+theorem pipeline_is_server_start : Facts.skel_server_Start = Spec.Skeleton.server_Start := by rfl
 
 /-- Obligation on the extracted facts: for a `fetching` request the proxy withholds the validators
 AND the range headers. -/
@@ -234,6 +243,48 @@ example :
     let u := upstreamRequest true l "gzip".toList r
     u.path = "/users/1".toList ∧ u.rawQuery = "b=2&a=1&flag&k=v".toList
     ∧ u.header = [("X-Own".toList, ["1".toList]), ("X-Via".toList, ["pike".toList]), ("Accept-Encoding".toList, ["gzip".toList])] := by decide
+
+/-- The location's added query parameters on the wire (`Model/Query.lean`, the function the `proxy` driver computes the
+expected query with from the configured pairs): whatever bytes a configured name or value contains — `&`, `=`, `+`, `%`,
+space, non-ASCII — the escaping is injective and undone exactly by the standard unescaping, so the upstream reads back
+the configured value and nothing of it can be taken for a separator of the client's own query. -/
+theorem added_parameter_recoverable (s : Str) (hb : ∀ c ∈ s, c.toNat < 256) :
+    Query.unescape (Query.escape s) = some s := Query.unescape_escape s hb
+
+theorem added_parameter_has_no_separator (s : Str) : '&' ∉ Query.escape s ∧ '=' ∉ Query.escape s ∧ ' ' ∉ Query.escape s := by
+  induction s with
+  | nil => simp [Query.escape]
+  | cons c r ih =>
+    unfold Query.escape
+    by_cases hu : Query.unreserved c = true
+    · rw [if_pos hu]
+      have h1 : c ≠ '&' := by intro h; subst h; exact absurd hu (by decide)
+      have h2 : c ≠ '=' := by intro h; subst h; exact absurd hu (by decide)
+      have h3 : c ≠ ' ' := by intro h; subst h; exact absurd hu (by decide)
+      simp only [List.mem_cons, not_or]
+      exact ⟨⟨fun h => h1 h.symm, ih.1⟩, ⟨fun h => h2 h.symm, ih.2.1⟩, ⟨fun h => h3 h.symm, ih.2.2⟩⟩
+    · rw [if_neg hu]
+      by_cases hs : c = ' '
+      · rw [if_pos hs]; simp only [List.mem_cons, not_or]
+        exact ⟨⟨by decide, ih.1⟩, ⟨by decide, ih.2.1⟩, ⟨by decide, ih.2.2⟩⟩
+      · rw [if_neg hs]
+        have hx : ∀ n, Query.hexU n ≠ '&' ∧ Query.hexU n ≠ '=' ∧ Query.hexU n ≠ ' ' := by
+          intro n
+          by_cases hn : n < 16
+          · have : ∀ m, m < 16 → Query.hexU m ≠ '&' ∧ Query.hexU m ≠ '=' ∧ Query.hexU m ≠ ' ' := by decide
+            exact this n hn
+          · have : Query.hexU n = '0' := by
+              unfold Query.hexU
+              rw [if_neg hn]
+            rw [this]; decide
+        have ha := hx (c.toNat / 16)
+        have hb := hx (c.toNat % 16)
+        simp only [List.mem_cons, not_or]
+        exact ⟨⟨by decide, fun h => ha.1 h.symm, fun h => hb.1 h.symm, ih.1⟩,
+               ⟨by decide, fun h => ha.2.1 h.symm, fun h => hb.2.1 h.symm, ih.2.1⟩,
+               ⟨by decide, fun h => ha.2.2 h.symm, fun h => hb.2.2 h.symm, ih.2.2⟩⟩
+
+example : Query.escape "a&b=c d%".toList = "a%26b%3Dc+d%25".toList := by decide
 
 end C15
 end Pike
